@@ -197,3 +197,114 @@ func HarnessAncestors(k int) {
 	untouched(pre, db)
 	vh.Reach("end")
 }
+
+// HarnessByHeight: by-height(height, count) returns stored headers only, only from the window
+// [height, height+count-1], each at most once, and every longest-chain header in the window.
+func HarnessByHeight(k int) {
+	pre, db, hs := setup(k)
+	height, count := vh.NondetInt("height"), vh.NondetInt("count")
+	const lim = 1 << 40
+	vh.Assume(vh.And(height > -lim, height < lim, count > -lim, count < lim))
+	lo, hi := height, height+count-1
+	got, err := hs.GetHeadersByHeight(height, count)
+	vh.Assert("C04/by-height-answers", err == nil)
+	if err != nil {
+		return
+	}
+	vh.Observe("n_got", len(got))
+	for x, g := range got {
+		stored := false
+		for i := range pre {
+			stored = vh.Or(stored, sameHeader(g, pre[i]))
+		}
+		vh.Assert("C04/by-height-only-stored", stored)
+		vh.Assert("C04/by-height-only-from-window", vh.And(int(g.Height) >= lo, int(g.Height) <= hi))
+		for y := 0; y < x; y++ {
+			vh.Assert("C04/by-height-no-duplicates", !vh.HashEq(got[y].Hash, g.Hash))
+		}
+	}
+	for i := range pre {
+		in := false
+		for _, g := range got {
+			in = vh.Or(in, vh.HashEq(g.Hash, pre[i].Hash))
+		}
+		inWindow := vh.And(int(pre[i].Height) >= lo, int(pre[i].Height) <= hi)
+		vh.Assert("C04/by-height-all-longest-in-window", vh.Implies(vh.And(inWindow, pre[i].State == hstore.L), in))
+	}
+	untouched(pre, db)
+	vh.Reach("end")
+}
+
+// HarnessCommonAncestor: common-ancestor(hashes) is the highest stored header strictly below
+// the lowest given height that is an ancestor (or the header itself) of every given header;
+// an error when a hash is unknown; no header when there is none. Stores in which a parent
+// was stored after its child (an orphan root that was never re-linked) are left out: "ancestor"
+// is ambiguous there (see HarnessAncestors).
+func HarnessCommonAncestor(k int, n int) {
+	pre, db, hs := setup(k)
+	for i := range pre {
+		for j := i + 1; j < len(pre); j++ {
+			vh.Assume(!vh.HashEq(pre[j].Hash, pre[i].Prev))
+		}
+	}
+	unknown := vh.NondetHash("unknown")
+	for i := range pre {
+		vh.Assume(!vh.HashEq(unknown, pre[i].Hash))
+	}
+	idx := make([]int, n)
+	args := make([]string, n)
+	anyUnknown := false
+	for x := range idx {
+		idx[x] = vh.Choose(k + 1)
+		if idx[x] == k {
+			anyUnknown = true
+			args[x] = unknown.String()
+		} else {
+			args[x] = pre[idx[x]].Hash.String()
+		}
+	}
+	got, err := hs.GetCommonAncestor(args)
+	if anyUnknown {
+		vh.Assert("C04/common-ancestor-unknown-hash-is-an-error", vh.And(err != nil, got == nil))
+		untouched(pre, db)
+		vh.Reach("unknown")
+		return
+	}
+	minH := pre[idx[0]].Height
+	for _, i := range idx {
+		minH = vh.IteI32(pre[i].Height < minH, pre[i].Height, minH)
+	}
+	cand := make([]bool, k)
+	for i := range cand {
+		cand[i] = pre[i].Height < minH
+	}
+	for _, from := range idx {
+		_, onPath := pathMembership(pre, from, -1, true)
+		for i := range cand {
+			cand[i] = vh.And(cand[i], onPath[i])
+		}
+	}
+	anyCand := vh.Or(cand...)
+	vh.Assert("C04/common-ancestor-found-iff-one-exists", vh.And(vh.Implies(anyCand, vh.And(err == nil, got != nil)), vh.Implies(!anyCand, got == nil)))
+	if got != nil {
+		for i := range cand {
+			highest := cand[i]
+			for j := range cand {
+				if j != i {
+					highest = vh.And(highest, !vh.And(cand[j], pre[j].Height > pre[i].Height))
+				}
+			}
+			vh.Assert("C04/common-ancestor-is-the-highest-common-one", vh.Implies(highest, sameAnswer(got, pre[i])))
+		}
+	}
+	untouched(pre, db)
+	vh.Reach("end")
+}
+
+// sameAnswer: h equals stored row r in every field the endpoint's response carries
+// (BlockHeaderResponse has no state; the ancestor query does not select that column).
+func sameAnswer(h *domains.BlockHeader, r hstore.H) bool {
+	return vh.And(vh.HashEq(h.Hash, r.Hash), vh.HashEq(h.PreviousBlock, r.Prev), vh.HashEq(h.MerkleRoot, r.Merkle), h.Height == r.Height,
+		h.Version == r.Version, h.Bits == r.Bits, h.Nonce == r.Nonce, h.Timestamp.Unix() == r.Ts.Unix(),
+		vh.BigEq(h.Chainwork, r.W), vh.BigEq(h.CumulatedWork, r.CW))
+}
